@@ -71,6 +71,11 @@ def replay_rt(binp, local):
 
 def run_rt(ctx, tree):
     binp = build_rt(tree)
+    for sc in regress_scenarios(rt=True):
+        ctx.stats.cls("regress_files")
+        v = replay_rt(binp, bytes.fromhex(sc["local"]))
+        if v:
+            ctx.stats.violations.append(("round trip (regression input): %s" % v, sc))
     nsh = vlib.NCPU
     maxlen = ctx.n(5, 6)
     res = inproc.run_shards([[binp, "--enum", ALPHA, str(maxlen), str(i), str(nsh)] for i in range(nsh)])
@@ -655,14 +660,16 @@ def run_one(r, scj, stats):
     return v
 
 
-def regress_scenarios():
+def regress_scenarios(rt=False):
     out = []
     d = os.path.join(vlib.VERIF, "corpus", "C17", "regress")
     if os.path.isdir(d):
         for f in sorted(os.listdir(d)):
             if f.endswith(".json"):
                 j = json.load(open(os.path.join(d, f)))
-                out.append(j.get("scenario", j))
+                sc = j.get("scenario", j)
+                if (sc.get("kind") in ("rt", "rt-crash")) == rt:
+                    out.append(sc)
     return out
 
 
@@ -678,7 +685,17 @@ def worker(job):
             return stats
 
     def runfn(sc, stats):
-        return run_one(r, vlib.jsonable(sc), stats)
+        scj = vlib.jsonable(sc)
+        v = run_one(r, scj, stats)
+        if v:
+            # DESIGN.md section 1: a violation counts only if it reproduces 3/3 (same scenario, fresh processes)
+            again = [run_one(r, scj, vlib.Stats()) for _ in range(2)]
+            if any(a is None for a in again):
+                stats.inconclusive += 1
+                stats.cls("unreproducible_violation")
+                stats.extra["unreproducible_example"] = {"msg": v[:600], "reruns": [a and a[:200] for a in again], "scenario": scj}
+                return None
+        return v
     if nex:
         vlib.hyp_search(scenario(), runfn, nex, seed, stats)
     return stats
@@ -694,7 +711,7 @@ def run(ctx):
         tree.make("qmail-inject")
         reg = regress_scenarios()
         nw = vlib.NCPU
-        per = ctx.n(1500, 20000)
+        per = ctx.n(3000, 40000)
         jobs = [(tree, i, vlib.subseed(ctx.seed, "c17", i), per, reg[i::nw]) for i in range(nw)]
         ctx.stats.merge(vlib.run_workers(worker, jobs))
     if not only and not ctx.stats.violations:
